@@ -40,7 +40,7 @@ func probeMain() {
 			r.Race = true
 		}
 		if os.Getenv("C05_PROBE_REPEAT") != "" && i%2 == 1 {
-			r.Repeat = true
+			r.Reps = 2
 		}
 		if os.Getenv("C05_PROBE_VARY") != "" {
 			r.GOMAXPROCS = []int{1, 2, 4, 16}[i%4]
@@ -59,6 +59,13 @@ func probeMain() {
 			i, rr.Dur, rr.Job.Run.GOMAXPROCS, rr.Job.Run.CPUs, rr.Res.Handoffs, rr.NumRows, len(rr.Res.Buffers), rr.Res.BufBytes, rr.Res.BufDigest[:12],
 			math.Float64frombits(rr.Res.TimeRunBits), math.Float64frombits(rr.Res.TimeDumpBits), math.Float64frombits(rr.Res.TimeEndBits),
 			rr.Res.HoldsWaited, rr.Res.HoldsExpired, rr.Res.NonQuiescent, rr.Res.Sleeps, rr.Races)
+	}
+	for i, rr := range recs {
+		for k2, rp := range rr.Reps {
+			d := diffMetrics(rr.Metrics, rp.Metrics)
+			fmt.Printf("run %d repetition %d vs 1: t_end %.9e vs %.9e, bufs equal=%v, %d metric rows differ; by what: %v %s\n", i, k2+2,
+				math.Float64frombits(rp.Res.TimeEndBits), math.Float64frombits(rr.Res.TimeEndBits), rp.Res.BufDigestNoPID == rr.Res.BufDigestNoPID, d.total, d.byWhat, rr.RepFail)
+		}
 	}
 	if k > 1 {
 		for i := 1; i < k; i++ {
